@@ -261,6 +261,8 @@ fn corpus(thorough: bool) -> Vec<String> {
 
 pub fn run(ctx: &Ctx) -> Report {
     crate::env::set_log_mode(crate::env::LOG_OFF);
+    // this property's statement says nothing about the key provider: judge outcomes only
+    crate::e2e::set_judge_provider(false);
     let strings = corpus(ctx.tier.thorough());
     let n = strings.len() as u64;
     let mut st = par_sweep(n, |i, st| {
